@@ -1,2 +1,333 @@
-//! Harnesses for property C39 (see /verif/properties.jsonl).
+//! C39 Configuration thresholds: the numeric layer of `StepThreshold` / `NtpDuration` deserialisation.
+//!
+//! The values are fed through serde's own in-memory deserializers (`serde::de::value::*`), i.e. the
+//! visitor entry points a TOML document reaches (`forward = 1.5` -> `visit_f64`, `= 3` ->
+//! `visit_i64`, `= "inf"` -> `visit_str`, `= nan` -> `visit_f64(NaN)`). TOML text parsing itself
+//! is outside the claim.
+//!
+//! Oracle (property text): an accepted threshold is, per direction, either absent (`None` =
+//! unlimited) or a non-negative duration, and was not produced from a NaN.
 use crate::stubs;
+use ntp_proto::verif::config as ch;
+use ntp_proto::verif::time_types as th;
+use ntp_proto::{NtpDuration, StepThreshold};
+use serde::de::value::{F64Deserializer, I64Deserializer, MapDeserializer, StrDeserializer, U64Deserializer};
+use serde::de::{self, Deserialize, Deserializer, IntoDeserializer, Visitor};
+
+/// Error type without message formatting (serde's `value::Error` renders every message into a
+/// `String`; the message text is irrelevant here).
+#[derive(Debug)]
+pub struct E0;
+impl std::fmt::Display for E0 {
+    fn fmt(&self, f: &mut std::fmt::Formatter<'_>) -> std::fmt::Result {
+        f.write_str("E0")
+    }
+}
+impl std::error::Error for E0 {}
+impl de::Error for E0 {
+    fn custom<T: std::fmt::Display>(_msg: T) -> Self {
+        E0
+    }
+}
+
+/// One TOML scalar as the `toml` deserializer presents it to a visitor.
+#[derive(Clone, Copy)]
+pub enum Val {
+    F(f64),
+    I(i64),
+    U(u64),
+    S([u8; 3]),
+}
+pub struct ValDe(Val);
+impl<'de> IntoDeserializer<'de, E0> for Val {
+    type Deserializer = ValDe;
+    fn into_deserializer(self) -> ValDe {
+        ValDe(self)
+    }
+}
+impl<'de> Deserializer<'de> for ValDe {
+    type Error = E0;
+    fn deserialize_any<V: Visitor<'de>>(self, v: V) -> Result<V::Value, E0> {
+        match self.0 {
+            Val::F(x) => v.visit_f64(x),
+            Val::I(x) => v.visit_i64(x),
+            Val::U(x) => v.visit_u64(x),
+            Val::S(b) => match std::str::from_utf8(&b) {
+                Ok(s) => v.visit_str(s),
+                Err(_) => Err(E0),
+            },
+        }
+    }
+    serde::forward_to_deserialize_any! {
+        bool i8 i16 i32 i64 i128 u8 u16 u32 u64 u128 f32 f64 char str string bytes byte_buf option
+        unit unit_struct newtype_struct seq tuple tuple_struct map struct enum identifier ignored_any
+    }
+}
+
+fn any_val() -> Val {
+    let kind: u8 = kani::any();
+    let f: f64 = kani::any();
+    let i: i64 = kani::any();
+    let u: u64 = kani::any();
+    let s: [u8; 3] = kani::any();
+    kani::assume(kind <= 3);
+    kani::assume(s[0] < 0x80 && s[1] < 0x80 && s[2] < 0x80);
+    match kind {
+        0 => Val::F(f),
+        1 => Val::I(i),
+        2 => Val::U(u),
+        _ => Val::S(s),
+    }
+}
+
+/// The value is one the per-direction form must reject according to the property
+/// (NaN or negative, including -inf).
+fn val_unsafe(v: Val) -> bool {
+    match v {
+        Val::F(x) => x.is_nan() || x < 0.0,
+        Val::I(x) => x < 0,
+        _ => false,
+    }
+}
+/// +inf reaches `NtpDuration::from_seconds`' `debug_assert!` (dev profile only; in release it
+/// saturates to `NtpDuration::MAX`, i.e. an unlimited threshold).
+fn val_posinf(v: Val) -> bool {
+    matches!(v, Val::F(x) if x == f64::INFINITY)
+}
+
+fn nonneg(d: Option<NtpDuration>) -> bool {
+    match d {
+        None => true,
+        Some(d) => th::dur_raw(d) >= 0,
+    }
+}
+
+/// What one direction must look like after an accepted map, given the value supplied for it.
+fn part_ok(got: Option<NtpDuration>, supplied: Option<Val>) {
+    assert!(nonneg(got), "accepted threshold part is negative");
+    match supplied {
+        None => assert!(got.is_none(), "absent direction must be unlimited"),
+        Some(Val::S(s)) => assert!(s == *b"inf" && got.is_none(), "only the string \"inf\" is accepted and means unlimited"),
+        Some(Val::F(x)) => {
+            assert!(!x.is_nan(), "accepted a NaN threshold part");
+            assert!(x >= 0.0, "accepted a negative threshold part");
+            assert!(got.is_some(), "numeric part yields a limit");
+            if x >= 1.0 {
+                assert!(th::dur_raw(got.unwrap()) >= 1 << 32, "limit not smaller than one second for inputs >= 1.0");
+            }
+        }
+        Some(Val::I(x)) => {
+            assert!(x >= 0, "accepted a negative integer threshold part");
+            assert!(got.is_some());
+            if x >= 1 {
+                assert!(th::dur_raw(got.unwrap()) >= 1 << 32);
+            }
+        }
+        Some(Val::U(x)) => {
+            assert!(got.is_some());
+            if x >= 1 {
+                assert!(th::dur_raw(got.unwrap()) >= 1 << 32);
+            }
+        }
+    }
+}
+
+// ------------------------------------------------------------------------------ single number
+/// `single-step-panic-threshold = <scalar>` for every f64 / i64 / u64 / 3-byte ASCII string.
+#[kani::proof]
+#[kani::unwind(6)]
+fn c39_single() {
+    let v = any_val();
+    let res: Result<StepThreshold, E0> = match v {
+        Val::F(x) => StepThreshold::deserialize(F64Deserializer::<E0>::new(x)),
+        Val::I(x) => StepThreshold::deserialize(I64Deserializer::<E0>::new(x)),
+        Val::U(x) => StepThreshold::deserialize(U64Deserializer::<E0>::new(x)),
+        Val::S(s) => {
+            let st = std::str::from_utf8(&s).unwrap();
+            StepThreshold::deserialize(StrDeserializer::<E0>::new(st))
+        }
+    };
+    match res {
+        Ok(t) => {
+            assert!(nonneg(t.forward) && nonneg(t.backward), "accepted threshold is negative");
+            match v {
+                Val::F(x) => {
+                    assert!(!x.is_nan(), "accepted NaN");
+                    assert!(x >= 0.0 && x != f64::INFINITY, "accepted a negative or infinite number");
+                    assert!(t.forward.is_some() && t.forward == t.backward, "single number limits both directions equally");
+                    if x >= 1.0 {
+                        assert!(th::dur_raw(t.forward.unwrap()) >= 1 << 32);
+                    }
+                    kani::cover!(x > 1e300, "huge finite value accepted (saturates)");
+                    kani::cover!(x == 0.0 && x.is_sign_negative(), "negative zero accepted as zero");
+                }
+                Val::I(x) => assert!(x >= 0 && t.forward.is_some() && t.forward == t.backward),
+                Val::U(_) => assert!(t.forward.is_some() && t.forward == t.backward),
+                Val::S(s) => assert!(s == *b"inf" && t.forward.is_none() && t.backward.is_none()),
+            }
+        }
+        Err(_) => {
+            // completeness: safe values are not rejected
+            match v {
+                Val::F(x) => assert!(x.is_nan() || x < 0.0 || x == f64::INFINITY, "rejected a valid threshold"),
+                Val::I(x) => assert!(x < 0),
+                Val::U(_) => assert!(false, "rejected an unsigned integer"),
+                Val::S(s) => assert!(s != *b"inf"),
+            }
+            kani::cover!(matches!(v, Val::F(x) if x.is_nan()), "NaN rejected");
+            kani::cover!(matches!(v, Val::F(x) if x == f64::NEG_INFINITY), "-inf rejected");
+            kani::cover!(matches!(v, Val::F(x) if x < 0.0 && x > -1e-300), "tiny negative rejected");
+        }
+    }
+}
+
+// ------------------------------------------------------------------------------ per direction
+const KEYS: [&str; 3] = ["forward", "backward", "sideways"];
+
+/// Keys are concrete per harness (symbolic keys made `String` comparison plus two float
+/// conversions exceed 12 GB in CBMC); values are symbolic.
+fn run_map<const N: usize>(k: [u8; N], v: [Val; N]) -> Result<StepThreshold, E0> {
+    let entries: [(&'static str, Val); N] = std::array::from_fn(|i| (KEYS[k[i] as usize], v[i]));
+    let md = MapDeserializer::<_, E0>::new(entries.into_iter());
+    StepThreshold::deserialize(md)
+}
+
+fn check_map<const N: usize>(k: [u8; N], v: [Val; N]) -> Option<StepThreshold> {
+    let n = N;
+    let res = run_map(k, v);
+    match res {
+        Ok(t) => {
+            let mut fwd = None;
+            let mut bwd = None;
+            let mut i = 0;
+            while i < n {
+                assert!(k[i] <= 1, "unknown key accepted");
+                if k[i] == 0 {
+                    assert!(fwd.is_none(), "duplicate forward accepted");
+                    fwd = Some(v[i]);
+                } else {
+                    assert!(bwd.is_none(), "duplicate backward accepted");
+                    bwd = Some(v[i]);
+                }
+                i += 1;
+            }
+            part_ok(t.forward, fwd);
+            part_ok(t.backward, bwd);
+            Some(t)
+        }
+        Err(_) => {
+            // completeness: distinct known keys with safe values are accepted
+            let shape_ok = (n == 0 || k[0] <= 1) && (n < 2 || (k[1] <= 1 && k[1] != k[0]));
+            let mut vals_ok = true;
+            let mut i = 0;
+            while i < n {
+                vals_ok = vals_ok
+                    && match v[i] {
+                        Val::S(s) => s == *b"inf",
+                        other => !val_unsafe(other) && !val_posinf(other),
+                    };
+                i += 1;
+            }
+            assert!(!(shape_ok && vals_ok), "well-formed per-direction threshold rejected");
+            None
+        }
+    }
+}
+
+fn any_safe_val() -> Val {
+    let v = any_val();
+    // NaN/negative: `_kf_` twin; +inf: dev-profile debug_assert only (see registry notes)
+    kani::assume(!val_unsafe(v) && !val_posinf(v));
+    v
+}
+
+/// `{ forward = v }` for every safe scalar v.
+#[kani::proof]
+#[kani::unwind(10)]
+fn c39_map_forward() {
+    let v = any_safe_val();
+    let r = check_map([0], [v]);
+    kani::cover!(matches!(r, Some(t) if t.forward.is_some() && t.backward.is_none()), "forward limited, backward unlimited");
+    kani::cover!(matches!(r, Some(t) if t.forward.is_none()), "forward = \"inf\"");
+    kani::cover!(r.is_none(), "rejected (string other than \"inf\")");
+}
+
+/// `{ backward = v }` for every safe scalar v.
+#[kani::proof]
+#[kani::unwind(10)]
+fn c39_map_backward() {
+    let v = any_safe_val();
+    let r = check_map([1], [v]);
+    kani::cover!(matches!(r, Some(t) if t.backward.is_some() && t.forward.is_none()), "backward limited, forward unlimited");
+    kani::cover!(r.is_none(), "rejected (string other than \"inf\")");
+}
+
+/// `{ sideways = v }` is rejected; `{}` is accepted as unlimited.
+#[kani::proof]
+#[kani::unwind(10)]
+fn c39_map_unknown_empty() {
+    let v = any_safe_val();
+    let r = check_map([2], [v]);
+    assert!(r.is_none(), "unknown key accepted");
+    let e = check_map([], []);
+    assert!(matches!(e, Some(t) if t.forward.is_none() && t.backward.is_none()), "empty map = unlimited");
+}
+
+/// Both directions, either order (the second value is a float or \"inf\").
+#[kani::proof]
+#[kani::unwind(10)]
+fn c39_map_two() {
+    let v = [any_safe_val(), any_safe_val()];
+    let r = if kani::any() { check_map([0, 1], v) } else { check_map([1, 0], v) };
+    kani::cover!(matches!(r, Some(t) if t.forward.is_some() && t.backward.is_some()), "both limited");
+}
+
+/// Duplicate keys are rejected whatever the values.
+#[kani::proof]
+#[kani::unwind(10)]
+fn c39_map_dup() {
+    let v = [any_safe_val(), any_safe_val()];
+    let r = if kani::any() { check_map([0, 0], v) } else { check_map([1, 1], v) };
+    assert!(r.is_none(), "duplicate key accepted");
+}
+
+/// Expected to FAIL on the unchanged tree: `ThresholdPart::visit_f64`/`visit_i64` accept NaN and
+/// negative values (single known key, so the unsafe value decides the outcome and every
+/// counterexample reproduces in the release profile through the oracle).
+#[kani::proof]
+#[kani::unwind(10)]
+fn c39_map_kf_unvalidated_part() {
+    let v = any_val();
+    kani::assume(val_unsafe(v));
+    check_map([0], [v]);
+}
+
+// ------------------------------------------------------------------------------ plain durations
+/// `NtpDuration` fields (accumulated-step-panic-threshold, meddling-threshold): every f64.
+#[kani::proof]
+#[kani::unwind(6)]
+fn c39_duration() {
+    let x: f64 = kani::any();
+    let which: bool = kani::any();
+    if which {
+        match NtpDuration::deserialize(F64Deserializer::<E0>::new(x)) {
+            Ok(d) => {
+                assert!(x.is_finite(), "accepted a non-finite duration");
+                assert!((th::dur_raw(d) < 0) == (x < 0.0) || th::dur_raw(d) == 0, "sign preserved");
+                kani::cover!(x < 0.0, "negative duration accepted (plain durations are signed)");
+            }
+            Err(_) => assert!(!x.is_finite(), "rejected a finite duration"),
+        }
+    } else {
+        match ch::accumulated_step_panic_threshold(F64Deserializer::<E0>::new(x)) {
+            Ok(None) => assert!(x.is_finite() && x.abs() < 1.0, "only (near-)zero disables the accumulated threshold"),
+            Ok(Some(d)) => {
+                assert!(x.is_finite() && x != 0.0, "zero means disabled; non-finite rejected");
+                assert!(th::dur_raw(d) != 0);
+                kani::cover!(th::dur_raw(d) < 0, "negative accumulated threshold accepted (fails closed: every step exceeds it)");
+                kani::cover!(th::dur_raw(d) == i64::MAX, "saturated");
+            }
+            Err(_) => assert!(!x.is_finite()),
+        }
+    }
+}
